@@ -72,6 +72,18 @@ def py_div(a, b):
 
 def binop(ip, op, a, b):
     st = ip.st
+    from . import group as G_
+    pa, pb = G_.pt_of(ip, a), G_.pt_of(ip, b)
+    if pa is not None or pb is not None:
+        if op is ast.Mult and (pa is None) != (pb is None):
+            k, P = (b, pa) if pa is not None else (a, pb)
+            if kind_of(k) in ('int', 'bool'):
+                return G_.smul(ip, k, P)
+        if op is ast.Add and pa is not None and pb is not None:
+            return G_.padd(ip, pa, pb)
+        if op is ast.Sub and pa is not None and pb is not None:
+            return G_.padd(ip, pa, G_.pneg(ip, pb))
+        raise Unsupported("operator %s on abstract points" % op.__name__)
     # unwrap heap sequences for + and *
     if isinstance(a, Loc) or isinstance(b, Loc):
         return _binop_heap(ip, op, a, b)
@@ -371,6 +383,21 @@ def _identity(ip, a, b):
 
 def equal(ip, a, b):
     st = ip.st
+    from . import group as G_
+    if G_.is_pt(a) or G_.is_pt(b):
+        pa, pb = G_.pt_of(ip, a), G_.pt_of(ip, b)
+        if pa is not None and pb is not None:
+            return SV(simp(pa.e == pb.e), 'bool')
+        other = b if pa is not None else a
+        mine = pa if pa is not None else pb
+        if isinstance(other, tuple) and len(other) == 2:
+            f = G_.F()
+            if other[0] is None and other[1] is None:
+                return SV(simp(mine.e == f['INF']), 'bool')
+            if other[0] is None or other[1] is None:
+                return False
+            return SV(simp(z3.And(mine.e != f['INF'], f['xc'](mine.e) == lift(other[0], 'int').e, f['yc'](mine.e) == lift(other[1], 'int').e)), 'bool')
+        return False
     if isinstance(a, Loc) or isinstance(b, Loc):
         return _equal_heap(ip, a, b)
     if isinstance(a, tuple) or isinstance(b, tuple):
@@ -586,6 +613,12 @@ def elem_value(ip, s, idx):
 
 def index(ip, v, i):
     st = ip.st
+    from . import group as G_
+    if G_.is_pt(v) or (isinstance(v, Loc) and st.cell(v)['k'] == 'obj' and '_pt' in st.cell(v)['f']):
+        ok, iv = concrete_of(i)
+        if not ok or iv not in (0, 1, -1, -2):
+            raise Unsupported("index into a point")
+        return G_.coord(ip, G_.pt_of(ip, v), iv % 2)
     if isinstance(v, Loc):
         c = st.cell(v)
         k = c['k']
@@ -918,6 +951,10 @@ def unpack_symbolic(ip, v, n):
 
 def iter_symbolic_unrolled(ip, v):
     """iteration over a symbolic sequence whose length can be decided on this path"""
+    from . import group as G_
+    P = G_.pt_of(ip, v)
+    if P is not None:
+        return [G_.coord(ip, P, 0), G_.coord(ip, P, 1)]
     s = ip.seq_view(v)
     if s is None:
         if isinstance(v, Loc) and ip.st.cell(v)['k'] == 'obj':
